@@ -4,6 +4,7 @@ import (
 	"fmt"
 	"go/token"
 	"go/types"
+	"os"
 	"regexp"
 	"sort"
 	"strings"
@@ -79,6 +80,7 @@ func (fr *Frame) clone() *Frame {
 // Exec verifies one function.
 type Exec struct {
 	logID       int
+	noMerge     bool // without opt merge: never if-convert (path splitting only)
 	prog        *Program
 	fn          *ssa.Function
 	c           *Contract
@@ -330,6 +332,17 @@ func (x *Exec) runInstrs(fr *Frame, st *State, b *ssa.BasicBlock, i int, k kont)
 			if c.S == "false" {
 				x.runBlock(fr, st, fb, b, k)
 				return
+			}
+			if !x.noMerge {
+				if J := x.regionJoin(fr, b); J != nil {
+					if mfr, mst, ok := x.tryRegion(fr, st, b, J, c, ins.Cond); ok {
+						if mfr.depth == 0 {
+							mst.trace = append(mst.trace, fmt.Sprintf("%d:%s@%s", J.Index, J.Comment, lineOf(x.prog.fset, J)))
+						}
+						x.runInstrs(mfr, mst, J, x.firstNonPhi(J), k)
+						return
+					}
+				}
 			}
 			st2, fr2 := st.clone(), fr.clone()
 			st.pc = append(st.pc, c)
@@ -1025,7 +1038,18 @@ func (x *Exec) typeAssert(fr *Frame, st *State, ins *ssa.TypeAssert) {
 	if _, isIface := ins.AssertedType.Underlying().(*types.Interface); isIface {
 		// assertion to an interface type: succeeds iff non-nil and implements (uninterpreted)
 		fn := quoteSym("implements:" + typeStr(ins.AssertedType))
-		x.decls.add(fn, fmt.Sprintf("(declare-fun %s (Int) Bool)", fn))
+		// closed world: exactly the concrete types of the loaded packages that implement the interface
+		var alts []Term
+		tv := Term{S: "t", Sort: sInt}
+		for _, t := range x.implementers(ins.AssertedType.Underlying().(*types.Interface)) {
+			alts = append(alts, mkEq(tv, intLit(x.typeTag(t))))
+		}
+		body := tFalse
+		if len(alts) > 0 {
+			body = mkOr(alts...)
+		}
+		x.decls.add(fn, fmt.Sprintf("(define-fun %s ((t Int)) Bool %s)", fn, body.S))
+		x.note("closed world: " + typeStr(ins.AssertedType) + " is implemented only by the types of the loaded packages of /repo")
 		ok := mkAnd(mkNot(mkEq(it, tNilI)), app(sBool, fn, app(sInt, "tagof", it)))
 		if types.Identical(ins.X.Type(), ins.AssertedType) {
 			ok = mkNot(mkEq(it, tNilI)) // same interface type: only the nil check remains
@@ -1458,6 +1482,15 @@ func (x *Exec) markDirty(st *State, p Ptr) {
 	for _, d := range st.dirty {
 		if d.typ == tn && d.ref.S == p.Idx[0].S {
 			return
+		}
+	}
+	if os.Getenv("EVYVC_DEBUG_INV") != "" {
+		fmt.Fprintf(os.Stderr, "markDirty %s %s fresh=%v seen=%v\n", tn, p.Idx[0].S, x.freshRefs[p.Idx[0].S], st.invSeen[tn+"|"+p.Idx[0].S])
+	}
+	if !x.freshRefs[p.Idx[0].S] {
+		// the object existed at the last boundary, where its invariant held: record that before it is first mutated
+		if nt, ok := x.prog.namedType(tn); ok {
+			x.assumeTypeInv(st, Ptr{Prefix: tn, Idx: p.Idx[:1], Elem: nt, Obj: true, GT: types.NewPointer(nt)})
 		}
 	}
 	st.dirty = append(st.dirty, dirtyObj{tn, p.Idx[0]})
